@@ -214,7 +214,8 @@ def expand(ctx, item):
 # not matter to the look-up)
 UNI = {"e\u0301.txt": b"decomposed", "\u00e9.txt": b"composed", "u\u0308 dir": DIR, "u\u0308 dir/f\u0327.txt": b"in nfd dir",
        " lead.txt": b"leading blank", "trail.txt ": b"trailing blank", "\u212b.bin": b"angstrom sign",
-       "A001": DIR, "A001/clip.mov": b"clip 1", "A002": DIR, "A002/clip.mov": b"clip 2"}   # sibling folders with a common leading part
+       "A001": DIR, "A001/clip.mov": b"clip 1", "A002": DIR, "A002/clip.mov": b"clip 2",
+       "A001/notes.txt": b"recorded by the root history only"}   # sibling folders with a common leading part
 
 
 def enabled(tree, meta):
@@ -225,6 +226,8 @@ def enabled(tree, meta):
         out.append((ops.create("", ["md5", "c4"]), m2, True))
         out.append((ops.create("u\u0308 dir", ["md5"]), m2, True))
         out.append((ops.create("", ["sha1"], sf=["e\u0301.txt", "u\u0308 dir/f\u0327.txt"]), m2, True))
+        # a nested history that is started for ONE file of its folder: the other file of that folder has no record in its nearest history
+        out.append((ops.create("A001", ["md5"], sf=["A001/clip.mov"]), m2, True))
         # generations sealed in different zones: their creation-date strings do not sort like their numbers (the clock still advances)
         out.append((["create", dict(root="", fmts=["md5"], _tz="Etc/GMT-12")], m2, True))
         out.append((["create", dict(root="", fmts=["xxh64"], _tz="Etc/GMT+11")], m2, True))
